@@ -69,12 +69,21 @@ def run_check(prop, tier='quick', seed=0, repo_root=None, replay=None, write=Tru
     if spec.get('controls') and not replay and os.environ.get('VERIF_NO_CONTROLS') != '1':
         from sa import controls
         control_info = controls.run_controls(prop, ctx, tier=tier, seed=seed)
-        say('  controls: %d/%d fired%s' % (control_info['fired'], control_info['total'],
-                                           '' if not control_info.get('audit') else
-                                           '; ablation audit %d applied, %d flagged' % (
-                                               control_info['audit']['applied'], control_info['audit']['flagged'])))
+        say('  controls: %d/%d fired' % (control_info['fired'], control_info['total']))
         if control_info['fired'] != control_info['total']:
             raise AnalysisError('positive control(s) did not fire: %s' % ', '.join(control_info['silent']))
+        if tier == 'thorough':
+            from sa import ablate
+            try:
+                limit = int(os.environ.get('VERIF_AUDIT_LIMIT', '64'))
+            except ValueError:
+                limit = 64
+            audit = ablate.audit(prop, ctx, seed=seed, limit=limit)
+            control_info['audit'] = audit
+            if audit:
+                say('  ablation audit: %d of %d sites sampled, %d applied, %d flagged, %d analysis-error, %d unflagged' % (
+                    min(limit, audit['sites_total']), audit['sites_total'], audit['applied'], audit['flagged'],
+                    audit['analysis_error'], audit['applied'] - audit['flagged'] - audit['analysis_error']))
     for f, k in knowns:
         say('KNOWN-FINDING: property=%s rule=%s %s -- %s' % (prop, f.rule, f.where(), k.get('what_fails', f.message)))
     rep_dir = os.path.join(VERIF, 'reports', prop)
